@@ -92,6 +92,8 @@ pub mod schema;
 pub mod sql;
 pub mod storage;
 pub mod types;
+#[cfg(kahflane_turdb_verif)]
+pub mod verif;
 
 /// Verification hooks (H2): re-exports of private pure functions for the external
 /// verification harness. Compiled only with `--cfg kahflane_turdb_verif`; additive.
